@@ -334,7 +334,7 @@ def a_cases():
                         steps.append(['edit', 'A EDITED'])
                     steps += [['acts', [[o[0], 'b', o[2]] for o in FOREIGN[fk]]], ['set', aw], ['cmd', 'q'], ['cmd', wr], ['cmd', 'q']]
                     out.append(a_case(['a'], {'a': 'old', 'b': 'old', 'c': 'old'}, steps,
-                                      'background buffer b modified: %s, foreign %s, a %s, q then %s then q' % (aw, fk, 'modified' if cura else 'clean', wr)))
+                                      'background buffer b modified: %s, foreign %s, a %s, q .. q around, then %s' % (aw, fk, 'modified' if cura else 'clean', wr)))
     # 4. a SUCCESSFUL autowrite first, then the foreign change, then leave / write again (with the option still on, or switched off)
     for lv1 in ('e b', 'n', '!touch ran.%d', 'q'):
         for fk in ('write newer', 'touch newer', 'nothing'):
